@@ -57,7 +57,8 @@ def _program(draw):
 
 
 def strategy(tier):
-    sched = schedule_strategy(max_decision=400, lines=executed_lines(), nthreads=4, walk_len=250)
+    sched = schedule_strategy(max_decision=400, lines=executed_lines(), nthreads=4, walk_len=250,
+                              modes=('sparse', 'line', 'pct', 'walk', 'none', 'stall', 'stall'))
     return st.builds(lambda p, s: dict(p, sched=s), _program(), sched)
 
 
